@@ -23,6 +23,6 @@ It is meant for: {p['quantifier']['text']}
 Your task: produce {n} independent changes to the source under src/ (each applied on its own to the pristine tree), each a small, realistic defect a maintainer could plausibly introduce (wrong operator or boundary, a missing or extra entry in a table, a mishandled branch or special case, a stale cache/state, two sites that each look fine alone, an argument mix-up, ...) that BREAKS the property above while the code still imports and every test that passed before still passes. Prefer changes that need something specific to manifest - an unusual input or construct, a particular combination of options, a multi-step sequence of calls, a particular ordering or schedule - over changes that any ordinary use exposes at once. {hint}
 For each change i deliver, inside {wt}:
   mutation<i>.diff  - `git diff` of the change against the pristine tree (only files under src/);
-  demo<i>.py        - a small self-contained program exercising public behaviour (CLI via subprocess with PYTHONPATH set as above, or the library API) that exits 0 on the pristine tree and exits 1 WITH the change, printing what it observed; it should create its inputs in a temporary directory;
+  demo<i>.py        - a small self-contained program exercising public behaviour (CLI via subprocess with PYTHONPATH set as above, or the library API) that exits 0 on the pristine tree and exits 1 WITH the change, printing what it observed; it should create its inputs in a temporary directory and must locate the source tree as the directory the script itself lives in (os.path.dirname(os.path.abspath(__file__))), never through a hard-coded path, because it will be re-run from a copy placed in the root of another checkout;
   meta<i>.json      - {{"property": "{p['id']}", "breaks": "<what part of the property fails>", "needs": "<what is needed for it to manifest>", "files": [...]}}.
 Verify both directions yourself (apply the diff / `git checkout -- src` to revert) and run the full test suite WITH each change to confirm that no previously passing test fails; leave the worktree pristine (`git checkout -- src`) when you finish, keeping only the mutation/demo/meta files (untracked). In your final answer list for each change: the file(s) touched, the one-line idea, how the demo shows it, and the test-suite tail with the change applied.""")
